@@ -148,6 +148,8 @@ def _tloss_merge(h):
         got = chan(out.value.p[0], out.value.p[1], st, m)
         for nm, x, y in zip(("N", "M", "alpha"), got, seq):
             h.ensure(f"merged=composition.{nm}", eqv(x, y))
+        h.ensure("result-p-is-fresh-list", out.value.p is not A.p and out.value.p is not B.p)
+    h.ensure("frame", A.p[0] is T1 and B.p[0] is T2 and A.p[1] is nb and B.p[1] is nb)
 
 
 @proof("C03", OPS + ":Channel.merge", name="Channel.merge/MSgate")
